@@ -72,7 +72,23 @@ fn observe<K: AsRef<str> + Clone>(ret: Option<TracedValue>, m: &TracedValues<K>,
     let into: Vec<(String, TracedValue)> = m.clone().into_iter().map(|(k, v)| (k.as_ref().to_owned(), v)).collect();
     // `&TracedValues` IntoIterator must agree with iter()
     let by_ref: Vec<(String, TracedValue)> = (&*m).into_iter().map(|(k, v)| (k.to_owned(), v.clone())).collect();
-    let itlen = if cpairs(&by_ref) == cpairs(&fwd) { m.iter().len() } else { usize::MAX };
+    // the provided iterator methods (internal iteration in both directions, `count`, `last`, `nth`,
+    // `nth_back`) must agree with `next` / `next_back`, for the borrowing and the consuming iterator
+    let own = |(k, v): (&str, &TracedValue)| (k.to_owned(), v.clone());
+    let push = |mut acc: Vec<(String, TracedValue)>, kv: (&str, &TracedValue)| {
+        acc.push(own(kv));
+        acc
+    };
+    let derived_ok = cpairs(&m.iter().fold(vec![], push)) == cpairs(&fwd)
+        && cpairs(&m.iter().rfold(vec![], push)) == cpairs(&back)
+        && cpairs(&m.iter().rev().fold(vec![], push)) == cpairs(&back)
+        && m.iter().count() == fwd.len()
+        && m.iter().last().map(own).map(|kv| cpairs(&[kv])) == fwd.last().cloned().map(|kv| cpairs(&[kv]))
+        && (0..=fwd.len()).all(|k| m.iter().nth(k).map(own).map(|kv| cpairs(&[kv])) == fwd.get(k).cloned().map(|kv| cpairs(&[kv])))
+        && (0..=fwd.len()).all(|k| m.iter().nth_back(k).map(own).map(|kv| cpairs(&[kv])) == back.get(k).cloned().map(|kv| cpairs(&[kv])))
+        && m.clone().into_iter().count() == fwd.len()
+        && cpairs(&m.clone().into_iter().fold(vec![], |mut a, (k, v)| { a.push((k.as_ref().to_owned(), v)); a })) == cpairs(&fwd);
+    let itlen = if cpairs(&by_ref) == cpairs(&fwd) && derived_ok { m.iter().len() } else { usize::MAX };
     // `values[name]` panics when the name is not defined
     let index: Vec<Option<TracedValue>> = probe
         .iter()
